@@ -2449,6 +2449,9 @@ impl StorageEngine {
     /// Background thread for cleaning up expired keys in sharded structure
     fn expiration_cleanup_loop(engine: Arc<StorageEngine>) {
         loop {
+            #[cfg(ferrous_verif)]
+            crate::verif::SWEEP_PASSES.fetch_add(1, std::sync::atomic::Ordering::SeqCst);
+            
             thread::sleep(Duration::from_secs(1)); // Check every second
             
             for database in &engine.databases {
@@ -2466,6 +2469,11 @@ impl StorageEngine {
                                 expired_keys.push(key.clone());
                             }
                         }
+                    }
+                    
+                    #[cfg(ferrous_verif)]
+                    if !expired_keys.is_empty() {
+                        crate::verif::sync_point("sweep_between");
                     }
                     
                     // Remove expired keys with write lock
